@@ -184,6 +184,9 @@ def run(tier, replay=None):
     run_r6(chk, fns)
     run_r7(chk, fns)
     run_r8(chk, fns)
+    run_r9(chk, fns)
+    run_r10(chk, fns)
+    run_r11(chk, fns)
 
     # ---- R5 descent guard
     run_r5(chk, [f for f in F.functions if f['inst'] in (0, 2)])
@@ -1025,6 +1028,246 @@ def run_r8(chk, fns):
     chk.count('R8 result sites', n_sites)
     chk.count('R8 state evaluations', n_states)
     chk.expect_count('R8', 'sites deciding on an inserting call\'s result', n_sites, 2)
+
+
+def _lin_of(e, syms):
+    """integer expression over the named quantities -> absint.Lin (None if it is something else)"""
+    from gsa.absint import Lin
+    e = ir.skipcasts(e)
+    while e is not None and e.get('k') in ('ParenExpr', 'CXXStaticCastExpr', 'CXXFunctionalCastExpr') and e.get('c'):
+        e = ir.skipcasts(e['c'][-1])
+    if e is None:
+        return None
+    t = ir.show(e).replace(' ', '')
+    for name, pat in syms.items():
+        if t == pat or t == 'this->' + pat:
+            return Lin.sym(name)
+    if e.get('k') == 'IntegerLiteral':
+        return Lin(int(e['v']))
+    if e.get('k') == 'BinaryOperator' and e.get('op') in ('+', '-'):
+        a, b = _lin_of(e['c'][0], syms), _lin_of(e['c'][1], syms)
+        if a is None or b is None:
+            return None
+        return a + b if e['op'] == '+' else a - b
+    return None
+
+
+def _dnf(e, syms):
+    """condition -> list of conjunctions, each a list of Lin >= 0 (integers); None if not linear"""
+    from gsa.absint import Lin
+    e = ir.skipcasts(e)
+    while e is not None and e.get('k') == 'ParenExpr' and e.get('c'):
+        e = ir.skipcasts(e['c'][0])
+    if e is None:
+        return None
+    if e.get('k') == 'BinaryOperator' and e.get('op') == '||':
+        a, b = _dnf(e['c'][0], syms), _dnf(e['c'][1], syms)
+        return None if a is None or b is None else a + b
+    if e.get('k') == 'BinaryOperator' and e.get('op') == '&&':
+        a, b = _dnf(e['c'][0], syms), _dnf(e['c'][1], syms)
+        return None if a is None or b is None else [x + y for x in a for y in b]
+    if e.get('k') in ('BinaryOperator', 'CXXOperatorCallExpr') and e.get('op') in ('<', '>', '<=', '>=', '=='):
+        l, r = _lin_of(e['c'][-2], syms), _lin_of(e['c'][-1], syms)
+        if l is None or r is None:
+            return None
+        op = e['op']
+        if op == '>':
+            return [[l - r - 1]]
+        if op == '>=':
+            return [[l - r]]
+        if op == '<':
+            return [[r - l - 1]]
+        if op == '<=':
+            return [[r - l]]
+        return [[l - r, r - l]]
+    return None
+
+
+def run_r9(chk, fns):
+    """R9: cofaces_simplex_range answers "no coface" without looking only when none can exist. With s vertices in the
+    simplex, codimension c and D an upper bound of the dimension of the complex, a simplex with s + c vertices exists
+    only if s + c <= D + 1 - and for c = 0 the simplex itself is in its star. Every early `return <empty range>` placed
+    before the search is guarded by a condition that *implies* s + c > D + 1: decided by exact Fourier-Motzkin on each
+    disjunct of the guard together with c >= 0, s >= 1 and the negation of the bound."""
+    from gsa.absint import Lin, fm_infeasible
+    fs = [f for f in fns if f['name'] == 'cofaces_simplex_range' and f.get('body') is not None]
+    if not fs:
+        raise AnalysisBroken('C01: cofaces_simplex_range not found')
+    n = 0
+    for f in fs:
+        syms = {'c': 'codimension', 'D': 'dimension_'}
+        # the local holding the vertices of the simplex
+        for x in ir.walk(f['body']):
+            if x.get('k') == 'VarDecl' and x.get('init') is not None and 'rg.begin()' in ir.show(x['init']).replace(
+                    ' ', '') and x.get('n') != 'simp':
+                syms['s'] = '%s.size()' % x['n']
+        if 's' not in syms:
+            raise AnalysisBroken('C01: the vertex list of the queried simplex was not found in cofaces_simplex_range')
+        for x in ir.walk(f['body']):
+            if x.get('k') != 'IfStmt' or x.get('constexpr'):
+                continue
+            th = x.get('then')
+            rets = [y for y in ir.walk(th) if y.get('k') == 'ReturnStmt']
+            if not rets or ir.contains(th, lambda y: ir.is_call(y) and ir.call_name(y) == 'rec_coface'):
+                continue
+            n += 1
+            dnf = _dnf(x.get('cond'), syms)
+            where = '%s:%s' % (rel(f['file']), x.get('l'))
+            if dnf is None:
+                raise AnalysisBroken('C01 R9: the early-return guard of cofaces_simplex_range is not linear in '
+                                     '(codimension, size, dimension_): %s' % ir.show(x.get('cond'))[:120])
+            c_, s_, D_ = Lin.sym('c'), Lin.sym('s'), Lin.sym('D')
+            bad = None
+            for conj in dnf:
+                # satisfiable together with s + c <= D + 1 ?
+                cons = list(conj) + [c_, s_ - 1, D_ + 1 - s_ - c_]
+                if not fm_infeasible(cons):
+                    bad = conj
+                    break
+            chk.ob('R9-empty-answer', 'cofaces_simplex_range returns an empty range early only when no coface of that '
+                   'codimension can exist', where, bad is None,
+                   '' if bad is None else 'the guard `%s` also holds when size + codimension <= dimension_ + 1 (for '
+                   'instance codimension 0 and a simplex of the top dimension): the star of such a simplex, which '
+                   'contains at least the simplex itself, is returned empty' % ir.show(x.get('cond'))[:160],
+                   key='R9|cofaces_simplex_range|empty-answer')
+    chk.expect_count('R9', 'early empty answers of cofaces_simplex_range', n, 1)
+
+
+def run_r10(chk, fns):
+    """R10: `dimension_to_be_lowered_` says that `dimension_` is only an upper bound. It is cleared (`= false`) only on
+    a path that made the bound exact: the path writes `dimension_` (a recomputed value, or -1 for an emptied tree), or
+    it has found a simplex whose dimension reaches the bound (a decision `<something> >= dimension_` taken as true).
+    Clearing the flag anywhere else freezes a stale upper bound: dimension() stays too large for ever."""
+    n = 0
+    for f in fns:
+        if f.get('body') is None:
+            continue
+
+        def cl(x):
+            if x.get('k') == 'BinaryOperator' and x.get('op') == '=':
+                l = ir.this_field(x['c'][0]) if hasattr(ir, 'this_field') else None
+                lt = ir.show(x['c'][0]).replace('this->', '')
+                if lt == 'dimension_to_be_lowered_' and ir.show(x['c'][1]) == 'false':
+                    return ['CLEAR']
+                if lt == 'dimension_':
+                    return ['DIMW']
+            return []
+        if not ir.contains(f['body'], lambda y: 'CLEAR' in cl(y)):
+            continue
+        n += 1
+        ps = paths.enumerate_paths(f, cl, loop_mode='01', keep_conds=True, cap=20000)
+        bad = None
+        for p in ps:
+            tags = p.tags()
+            if 'CLEAR' not in tags or p.end == 'throw':
+                continue
+            reached = False
+            for c, pol, cx in p.conds:
+                if isinstance(c, tuple) or not pol:
+                    continue
+                t = ir.show(c).replace(' ', '').replace('this->', '')
+                if '>=dimension_' in t or '==dimension_' in t or t.strip('()').startswith('dimension_<='):
+                    reached = True
+            if 'DIMW' not in tags and not reached and bad is None:
+                bad = p
+        chk.ob('R10-bound-exact', '%s clears dimension_to_be_lowered_ only on paths that made dimension_ exact'
+               % f['name'], '%s:%d' % (rel(f['file']), f['line']), bad is None,
+               '' if bad is None else 'a path sets dimension_to_be_lowered_ = false without writing dimension_ and '
+               'without having met a simplex of dimension dimension_: a stale upper bound becomes the reported '
+               'dimension', key='R10|%s|bound-exact' % f['name'])
+    chk.expect_count('R10', 'functions clearing dimension_to_be_lowered_', n, 4)
+
+
+def run_r11(chk, fns):
+    """R11: rec_coface (the coface search of the option sets without label lists) is evaluated on every valuation of
+    the predicates its loop body consults - star, current size == requested size, all vertices matched, one vertex left,
+    label match / label greater, has children (128 valuations, inconsistent ones skipped). Expected: a simplex is
+    recorded iff all vertices are matched (or this match is the last) and (star or sizes equal); the search descends
+    iff there are children and something can still be found below: always while vertices remain to be matched or a
+    smaller label is passed, and below a complete match iff star or the size is not reached yet."""
+    from gsa import predeval
+    fs = [f for f in fns if f['name'] == 'rec_coface' and f.get('body') is not None]
+    if len(fs) != 1:
+        raise AnalysisBroken('C01: rec_coface not found')
+    f = fs[0]
+    loops = [x for x in ir.walk(f['body']) if x.get('k') == 'ForStmt']
+    if len(loops) != 1:
+        raise AnalysisBroken('C01: rec_coface: loop over the members not found')
+    body = loops[0].get('body')
+    import itertools
+    n = 0
+    bad = None
+    for star, eq, E, one, match, greater, hc in itertools.product((False, True), repeat=7):
+        if E and (one or match or greater):
+            continue
+        if match and greater:
+            continue
+        n += 1
+        events = []
+
+        def oracle(e, env, star=star, eq=eq, E=E, one=one, match=match, greater=greater, hc=hc):
+            k = e.get('k')
+            t = ir.show(e).replace(' ', '')
+            if k == 'DeclRefExpr' and e.get('n') == 'star':
+                return star
+            if ir.is_call(e):
+                nm = ir.call_name(e)
+                if nm == 'empty' and t.startswith('vertices'):
+                    return E
+                if nm == 'has_children':
+                    return hc
+                if nm == 'rec_coface':
+                    events.append('REC')
+                    return 0
+                if nm == 'push_back' and t.startswith('cofaces'):
+                    events.append('PUSH')
+                    return 0
+                if nm in ('pop_back', 'push_back', 'back'):
+                    return 0
+            if k in ('BinaryOperator', 'CXXOperatorCallExpr') and e.get('op') in ('==', '>', '<', '<=', '>=', '!='):
+                if 'curr_nbVertices' in t and 'nbVertices' in t.replace('curr_nbVertices', ''):
+                    return {'==': eq, '!=': not eq, '<': not eq, '<=': True, '>=': eq, '>': False}[e['op']]
+                if 'vertices.size()' in t:
+                    return one if e['op'] == '==' else (not one if e['op'] in ('!=', '>') else None)
+                if 'simplex->first' in t and 'vertices.back()' in t:
+                    lhs_first = t.strip('(').startswith('simplex->first')
+                    if e['op'] == '==':
+                        return match
+                    if e['op'] == '!=':
+                        return not match
+                    gt = greater if lhs_first else (not greater and not match)
+                    if e['op'] == '>':
+                        return gt
+                    if e['op'] == '<':
+                        return (not greater and not match) if lhs_first else greater
+            if k == 'VarDecl' and e.get('n') == 'tmp':
+                return 0
+            return None
+        ev = predeval.Evaluator(oracle)
+        try:
+            try:
+                ev.stmt(body)
+            except predeval.Return:
+                pass
+        except predeval.Unknown as ex:
+            raise AnalysisBroken('C01: rec_coface has a shape the evaluator does not know: %s' % ex)
+        if E:
+            exp_push, exp_rec = (star or eq), hc and (star or not eq)
+        elif match:
+            exp_push, exp_rec = one and (star or eq), hc and (not one or star or not eq)
+        elif greater:
+            exp_push, exp_rec = False, False
+        else:
+            exp_push, exp_rec = False, hc
+        got = ('PUSH' in events, 'REC' in events)
+        if got != (exp_push, exp_rec) and bad is None:
+            bad = (dict(star=star, sizes_equal=eq, all_matched=E, one_left=one, label_match=match,
+                        label_greater=greater, has_children=hc), got, (exp_push, exp_rec))
+    chk.count('R11 valuations', n)
+    chk.ob('R11-coface-search', 'rec_coface records and descends exactly as the coface search requires (%d valuations)'
+           % n, '%s:%d' % (rel(f['file']), f['line']), bad is None,
+           '' if bad is None else 'for %s it (records, descends) = %s, required %s' % (
+               ', '.join('%s=%s' % kv for kv in bad[0].items()), bad[1], bad[2]), key='R11|rec_coface|search')
 
 
 def run_r4(chk, fns):
